@@ -42,6 +42,16 @@ def gen(tier, rng):
                                                 dst_lay={"k": "typed", "guard": 1} if typed else {"k": "slice", "guard": 1},
                                                 api="typed" if typed else "dyn", log=("src", "dst"),
                                                 chk=("pipeline", "ret_ok", "near", "outside", "srcsame")))
+    if tier != "quick":
+        for i in range(6000):
+            kw = rz.random_resize_kw(rng, algs=[("nearest", 1)], maxdim=24)
+            lay = rng.choice([{"k": "image_ref", "guard": 1}, {"k": "typed_ref", "guard": 1}, {"k": "crop_ref", "pad": [0, 1, 0, 0], "guard": 1},
+                              {"k": "crop_ref", "pad": [2, 1, 1, 3], "guard": 1}, {"k": "image_ref", "guard": 2}])
+            typed = lay["k"].startswith("typed")
+            cases.append(rz.resize_case(kw["pt"], kw["sw"], kw["sh"], kw["dw"], kw["dh"], alg="nearest", alpha=kw["alpha"], box=kw["box"], Q=kw["Q"],
+                                        cpu=kw["cpu"], src_c={"g": "data", "v": tags(kw["pt"], kw["sw"], kw["sh"], rng)}, src_lay=lay,
+                                        dst_lay={"k": "typed", "guard": 1} if typed else {"k": "slice", "guard": 1}, api="typed" if typed else "dyn",
+                                        log=("src", "dst"), chk=("pipeline", "ret_ok", "near", "outside", "srcsame")))
     # extreme ratios in strips
     for pt in ("U8", "U16x3", "F32x4", "U8x4", "I32"):
         for (sw, sh, dw, dh) in ((200, 1, 1, 1), (1, 200, 3, 1), (1, 1, 97, 2), (3, 2, 120, 1), (255, 1, 2, 1), (2, 1, 255, 1)):
